@@ -11,5 +11,29 @@ if ! cargo build --release --offline >"$here/build.log" 2>&1; then
     tail -40 "$here/build.log" >&2
     exit 2
 fi
+case "$3" in *send-proof*) sendproof_replay=1 ;; *) sendproof_replay=0 ;; esac
+if [ "$1" = "C17" ] && { [ "$2" != "--replay" ] || [ "$sendproof_replay" = 1 ]; }; then
+    # type-level clause: Muxer<W>: Send/Sync for every W: Send/Sync (compiled, not run)
+    if ! cargo build --release --offline --manifest-path "$here/send_proof/Cargo.toml" --target-dir "$here/target/send_proof" >"$here/send_proof.log" 2>&1; then
+        mkdir -p "$here/../replays/C17"
+        cp "$here/send_proof.log" "$here/../replays/C17/send-proof-compiler-output.txt"
+        echo "violation class=C17/send-sync-bound: muxide compiles, but Muxer<W> is not Send/Sync for every Send/Sync sink type W (compiler output in the replay file)"
+        echo "VIOLATION property=C17 replay=/verif/replays/C17/send-proof-compiler-output.txt"
+        exit 1
+    fi
+    if [ "$sendproof_replay" = 1 ]; then
+        echo "REPLAY-CLEAN property=C17 (send_proof compiles on this tree)"
+        exit 0
+    fi
+fi
+if [ "$1" = "C20" ]; then
+    # the real CLI binary, rebuilt from /repo's working tree into a directory under /verif
+    if ! CARGO_PROFILE_RELEASE_OVERFLOW_CHECKS=true CARGO_PROFILE_RELEASE_DEBUG_ASSERTIONS=true \
+        cargo build --release --offline --manifest-path /repo/Cargo.toml --bin muxide --target-dir "$here/target/repo-bin" >"$here/cli-build.log" 2>&1; then
+        echo "HARNESS ERROR: the muxide binary does not build" >&2
+        tail -40 "$here/cli-build.log" >&2
+        exit 2
+    fi
+fi
 cd "$here/.." || exit 2
 exec "$here/target/release/check" "$@"
